@@ -55,11 +55,13 @@ def r2(ctx):
             for s in sites(f, TO_NODE_CACHE):
                 seeds.append((f, s))
         good = bool(seeds)
-        for f, s in seeds:
-            a = f.arg_origin(s, 1)
-            good = good and "roots" in term_str(a)
         # the roots vector is filled only by node_from_bytes
         ps = [s for s, t in fo.calls() if (t.get("callee") or "").endswith("::push") and "node_from_bytes" in term_str(fo.arg_origin(s, 1))]
+        filled = set(term_sig(strip(fo.arg_origin(s, 0))) for s in ps)
+        for f, s in seeds:
+            a = f.arg_origin(s, 1)
+            # the seed is the captured `roots` variable, or (closure spliced) the very vector the pushes fill
+            good = good and ("roots" in term_str(a) or (f is fo and term_sig(strip(a)) in filled))
         ctx.check(P, rule, "the cache is seeded with the roots read from storage", good and bool(ps), "to_node_cache(roots.clone()) with roots from node_from_bytes", "cache seed is not the stored roots")
 
 
